@@ -1513,7 +1513,8 @@ func (n *node) MakeRef() gen.Ref {
 	ref.Creation = n.creation
 	id := atomic.AddUint64(&n.uniqID, 1)
 	ref.ID[0] = id & ((2 << 17) - 1)
-	ref.ID[1] = id >> 46
+	ref.ID[1] = (id >> 18) & ((2 << 27) - 1)
+	ref.ID[2] = id >> 46
 	return ref
 }
 
